@@ -178,11 +178,14 @@ def r14a(P, R):
                 R.undecided("R14-a", "wiring:" + fld, "new option field `%s` has no entry in the wiring table" % fld, loc=base_fc.loc())
                 continue
             require_fields(P, (CFG + exp[0], exp[1]))
-            got = w.get(fld, set())
-            R.check("R14-a", "wiring:" + fld, exp in got and len({g for g in got if g[0] != "<assigned>"}) == 1,
-                    "`%s` <- config.%s.%s" % (fld, exp[0], exp[1]),
-                    "option `%s` is wired to %s, expected config %s.%s: the declaration printer and the loader would still agree with each "
-                    "other but not with the configured naming/export option" % (fld, sorted(got), exp[0], exp[1]), loc=base_fc.loc())
+            got = {g for g in w.get(fld, set()) if g[0] != "<assigned>"}
+            # a further config leaf feeding the same option is a new key (feature addition) unless it is the key of another option
+            foreign = sorted(g for g in got - {exp} if g in set(BASE_WIRING.values()))
+            R.check("R14-a", "wiring:" + fld, exp in got and not foreign,
+                    "`%s` <- config.%s.%s%s" % (fld, exp[0], exp[1], (" (and the additional key(s) %s)" % sorted(got - {exp})) if got - {exp} else ""),
+                    "option `%s` is wired to %s, expected config %s.%s%s: the declaration printer and the loader would still agree with each "
+                    "other but not with the configured naming/export option" % (fld, sorted(got), exp[0], exp[1],
+                                                                                (" and not the key(s) of other options %s" % foreign) if foreign else ""), loc=base_fc.loc())
         # named export is the negation of default export
         fci = inlined(P, base_fc)
         negs = [n for n in fci.walk() if n.get("k") == "Unary" and n.get("op") == "Not"]
@@ -198,7 +201,57 @@ def r14a(P, R):
             R.undecided("R14-a", "wiring:named-is-negation", "how %s derives the polarity of named vs default export is not a single `!` "
                         "(%d negations, %d comparisons/branches); not decided on this shape" % (base_fc.path, len(negs), len(other)), loc=base_fc.loc())
 
-    sections(R, "R14-a", ("shared-driver", shared_driver), ("base-options", base_options), ("loader", loader), ("cli", cli), ("wiring", wiring))
+    # The shared traversal and a visitor each hold a copy of the base options (the visitor inside its own options struct).  A visitor
+    # that reads a naming option from its copy (R14-c lists who does) agrees with the traversal only if the copy still holds the
+    # configured value when the visitor is built: the entry point must not move the value out of, or overwrite, that field.
+    def same_copy():
+        js, ts = visitors(P)
+        for side, entry_path, vis in (("ts", PR + "operation_type_printer::print_types_for_operation_document", ts), ("js", JS_ENTRY, js)):
+            e0 = P.fn(entry_path)
+            readers = [p for p in P.reachable(list(vis.values())) if p in P.fns and not P.fns[p].derived
+                       and any(a == BASEOPT for a, _f in field_reads(P.fns[p]))]
+            key = "base-options-copy:" + side
+            if not readers:
+                R.holds("R14-a", key, "this side's visitor reads no base option from a copy of its own", loc=e0.loc())
+                continue
+            e = inlined(P, e0)
+
+            def holder(x):
+                """(adt, field) when x is a projection `<options>.<field of type OperationBasePrinterOptions>`"""
+                while x.get("k") in ("AddrOf", "DropTemps", "Use") and "e" in x:
+                    x = x["e"]
+                if x.get("k") == "Field" and x.get("adt"):
+                    a = P.adts.get(norm(x["adt"]))
+                    if a is not None and a.kind == "Struct" and _adt_of_type(P, a.field_types().get(x["field"])) == BASEOPT:
+                        return (norm(x["adt"]), x["field"])
+                return None
+            moved, assigned, borrowed = [], [], []
+            in_mem = set()
+            for n in e.walk():
+                if n.get("k") == "Call" and (call_name(n) or "") in ("core::mem::take", "core::mem::replace", "core::mem::swap"):
+                    for a in n["args"]:
+                        if a.get("k") == "AddrOf" and a.get("mut") and holder(a):
+                            moved.append((call_name(n).split("::")[-1], holder(a)))
+                            in_mem.add(id(a))
+            for n in e.walk():
+                if n.get("k") == "Assign" and holder(n["l"]):
+                    assigned.append(holder(n["l"]))
+                elif n.get("k") == "AddrOf" and n.get("mut") and id(n) not in in_mem and holder(n):
+                    borrowed.append(holder(n))
+            if moved and not assigned:
+                R.violated("R14-a", key, "%s takes the base options out of `%s.%s` with mem::%s before the visitor is built from those options: the "
+                           "shared traversal names the exports from the configured base options, while the visitor's own copy is left at another "
+                           "value (Default for `take`) and %s read(s) naming options from that copy — the two sides name an export differently "
+                           "whenever the option is not at its default" % (e0.path, moved[0][1][0].split("::")[-1], moved[0][1][1], moved[0][0],
+                                                                          [short(r) for r in readers[:2]]), loc=e0.loc())
+            elif moved or assigned or borrowed:
+                R.undecided("R14-a", key, "%s writes to the visitor's copy of the base options (%s); whether it still equals what the shared traversal "
+                            "gets is not decided" % (e0.path, sorted(set(moved and [m[1] for m in moved] or []) | set(assigned) | set(borrowed))), loc=e0.loc())
+            else:
+                R.holds("R14-a", key, "the visitor's copy of the base options is the configured value (never written in the entry point)", loc=e0.loc())
+
+    sections(R, "R14-a", ("shared-driver", shared_driver), ("base-options", base_options), ("same-copy", same_copy), ("loader", loader), ("cli", cli),
+             ("wiring", wiring))
 
 
 def const_site(em):
